@@ -9,7 +9,7 @@ here = os.path.dirname(os.path.abspath(__file__))
 tmpl = open(os.path.join(here, "mutant_prompt.tmpl")).read()
 props = [json.loads(l) for l in open(os.path.join(here, "..", "properties.jsonl"))]
 os.makedirs(scratch, exist_ok=True)
-ORD = {"2": "SECOND", "3": "THIRD", "4": "FOURTH", "5": "FIFTH", "6": "SIXTH"}
+ORD = {"2": "SECOND", "3": "THIRD", "4": "FOURTH", "5": "FIFTH", "6": "SIXTH", "7": "SEVENTH", "8": "EIGHTH", "9": "NINTH"}
 for p in props:
     pid = p["id"]
     d = os.path.join(scratch, pid)
@@ -23,6 +23,6 @@ for p in props:
     mdns = pid in ("C13", "C14", "C15", "C20")
     demo = ("; for simple-mdns internals the cfg-guarded wrappers of `simple_mdns::verif` may be used - then say so in the README and run the demo with RUSTFLAGS='--cfg simple_dns_verif' and --features sync,async-tokio" if mdns else "")
     out = (tmpl.replace("__DIR__", d).replace("__PROP__", text).replace("__USED__", "; ".join(used)).replace("__DEMO__", demo)
-               .replace("__ROUND__", ORD.get(rnd, rnd + "th")))
+               .replace("__NOTE__", "").replace("__ROUND__", ORD.get(rnd, rnd + "th")))
     open(os.path.join(scratch, pid + ".prompt.txt"), "w").write(out)
 print("prepared", len(props), "worktrees and prompts under", scratch)
